@@ -255,6 +255,12 @@ func parseLiteral(token lex.Token) (e any, err error) {
 		return expr.Lit(fval), nil
 	}
 
+	// if every wildcard character is escaped it is a plain literal, an escape sequence stands for
+	// the character after the backslash (\* is a literal *, \\ is a literal backslash)
+	if strings.Contains(token.Val, `\`) && !hasUnescapedWildcard(token.Val) {
+		return expr.Lit(unescape(token.Val)), nil
+	}
+
 	// if it contains unescaped wildcards then it is a wildcard string
 	if strings.ContainsAny(token.Val, "*?") {
 		return expr.WILD(token.Val), nil
@@ -266,4 +272,29 @@ func parseLiteral(token lex.Token) (e any, err error) {
 	}
 
 	return expr.Lit(token.Val), nil
+}
+
+// hasUnescapedWildcard checks whether the word contains a * or ? that is not preceded by a backslash.
+func hasUnescapedWildcard(in string) bool {
+	for i := 0; i < len(in); i++ {
+		switch in[i] {
+		case '\\':
+			i++ // skip the escaped character
+		case '*', '?':
+			return true
+		}
+	}
+	return false
+}
+
+// unescape removes the backslash of every escape sequence and keeps the escaped character.
+func unescape(in string) string {
+	var out strings.Builder
+	for i := 0; i < len(in); i++ {
+		if in[i] == '\\' && i+1 < len(in) {
+			i++
+		}
+		out.WriteByte(in[i])
+	}
+	return out.String()
 }
